@@ -7,9 +7,9 @@ sys.path.insert(0, os.path.dirname(os.path.abspath(__file__)))
 import common as C
 
 def main():
-    res = C.build_all(release=False, nopar=False, sd=True)
+    res = C.build_all(release=False, nopar=True, sd=True)
     ok = True
-    for k in ("coq", "driver", "harness", "harness-sd"):
+    for k in ("coq", "driver", "harness", "harness-nopar", "harness-sd"):
         good, msg = res[k]
         print("%-8s %s %s" % (k, "ok" if good else "FAILED", "" if good else msg[-3000:]))
         ok = ok and good
